@@ -109,7 +109,7 @@ func waitSettled(s *scorch.Scorch, limit time.Duration) error {
 func TestC12Files(t *testing.T) {
 	c12Register()
 	ev := Ev("C12")
-	ev.SetRule("rapid: scorch disk index, numSnapshotsToKeep in {1,2,3,5}, aggressive merge plan options, persister workers/in-memory merges, 30-120 small churn batches (updates, deletes) with forced merges, long-lived readers and a seeded delay plan at lock-free hook points; " +
+	ev.SetRule("rapid: scorch disk index, numSnapshotsToKeep in {1,2,3,5}, aggressive merge plan options, persister workers/in-memory merges, 30-120 small churn batches (updates, deletes) with forced merges (some abandoned by their caller through a cancelled context), long-lived readers and a seeded delay plan at lock-free hook points; " +
 		"continuous sampler synchronised with the purger through the existing EventKindPurgerCheck callback: every epoch listed by RootBoltSnapshotEpochs loads (all its files exist), every file segment of the current root and of every held reader exists; no async error callback fires; " +
 		"at quiescence (persister and merger caught up, one wake-up write, caught up again): *.zap on disk == files named by snapshots in root.bolt, CurFilesIneligibleForRemoval == 0, number of bolt epochs <= numSnapshotsToKeep+1; after Close no fd or mmap of the directory remains; " +
 		"plus wall-clock SIGKILL runs of such workloads (C03 machinery): the index reopens at a batch not older than the last acknowledged one; " +
@@ -203,7 +203,7 @@ func TestC12Files(t *testing.T) {
 			files []string
 		}
 		var readers []held
-		merges := 0
+		merges, cancelledMerges := 0, 0
 		fail := func(format string, a ...interface{}) {
 			stopSampler()
 			wg.Wait()
@@ -223,6 +223,19 @@ func TestC12Files(t *testing.T) {
 				}
 				cancel()
 				merges++
+			case 19:
+				// a forced merge that its caller gives up on (context cancelled before or while it
+				// runs): whatever it held must be released again
+				_ = WaitPersisted(idx, 30*time.Second)
+				ctx, cancel := context.WithCancel(context.Background())
+				if d := rapid.SampledFrom([]int{0, 0, 50, 500, 5000}).Draw(t, "cancelAfterUS"); d == 0 {
+					cancel()
+				} else {
+					time.AfterFunc(time.Duration(d)*time.Microsecond, cancel)
+				}
+				_ = s.ForceMerge(ctx, &mergeplan.SingleSegmentMergePlanOptions)
+				cancel()
+				cancelledMerges++
 			case 1, 2:
 				if len(readers) < 3 {
 					if r, err := s.Reader(); err == nil {
@@ -335,6 +348,9 @@ func TestC12Files(t *testing.T) {
 		purges := atomic.LoadInt64(&c12Purges) - purges0
 		nt := purges >= 3 && merges >= 1 && atomic.LoadInt64(&samples) >= 1
 		cl := []string{fmt.Sprintf("keep:%d", cfg.KeepSnapshots)}
+		if cancelledMerges > 0 {
+			cl = append(cl, "forced-merge-abandoned-by-its-caller")
+		}
 		if cfg.Workers > 1 {
 			cl = append(cl, "multi-worker")
 		}
